@@ -1,2 +1,49 @@
-(* placeholder, filled in below *)
-From QV Require Import Base.Mat C01.Model C01.Spec.
+(* C01/PropsDM.v : property C02.  Density-matrix execution returns U rho U^dagger.
+   Statements only; proofs in ProofsDM / ProofsRunDM.  The carrier is any commutative semiring with
+   a conjugation cj (cj 0 = 0, cj 1 = 1, additive, multiplicative); rho is ANY 2^n x 2^n matrix
+   (Hermitian or not).  madj = conjugate transpose, sandwich n U rho = U * (rho * madj U).
+   Satisfiability of the hypotheses: C01/Examples.v. *)
+From Coq Require Import List Bool Arith Lia.
+From QV Require Import Base.Mat C01.Model C01.Spec C01.Lib C01.ProofsSV C01.ProofsCtrl C01.ProofsMat
+  C01.ProofsRun C01.ProofsDM C01.ProofsRunDM.
+Import ListNotations.
+
+(* right einsum with conj(M), then left einsum with M *)
+Theorem dm_plain_ok : forall (T : Type) (K : ops T) (cj : T -> T), semiring K -> conj_ok K cj ->
+  forall n qs (M rho : mat T),
+  NoDup qs -> (forall q, In q qs -> q < n) -> wf_mat n rho ->
+  apply_gate_dm_plain K cj n qs M rho = sandwich K cj n (embed K n qs M) rho.
+Proof. exact @dm_plain_eq. Qed.
+Print Assumptions dm_plain_ok.
+
+(* controlled branch: transpose by control_order_density_matrix, the blocks 01, 10, 11 are updated
+   with the batched strings (label c of dimension 2^ncontrol - 1), 00 is kept, reassembled and
+   transposed back *)
+Theorem dm_ctrl_ok : forall (T : Type) (K : ops T) (cj : T -> T), semiring K -> conj_ok K cj ->
+  forall n cs ts (M rho : mat T),
+  incr_from 0 cs -> (forall c, In c cs -> c < n) -> NoDup ts -> (forall t, In t ts -> t < n) ->
+  (forall t, In t ts -> ~ In t cs) -> wf_mat n rho ->
+  apply_gate_dm_ctrl K cj n cs ts M rho = sandwich K cj n (cembed K n cs ts M) rho.
+Proof. exact @dm_ctrl_eq. Qed.
+Print Assumptions dm_ctrl_ok.
+
+(* apply_gate_half_density_matrix = E rho (plain gates; the real code refuses controlled_by) *)
+Theorem dm_half_ok : forall (T : Type) (K : ops T), semiring K ->
+  forall n qs (M rho : mat T),
+  NoDup qs -> (forall q, In q qs -> q < n) -> wf_mat n rho ->
+  apply_gate_half_dm K n qs M rho = mmul K (embed K n qs M) rho.
+Proof. exact @dm_half_eq. Qed.
+Print Assumptions dm_half_ok.
+
+Theorem apply_gate_dm_ok : forall (T : Type) (K : ops T) (cj : T -> T), semiring K -> conj_ok K cj ->
+  forall n (g : gate) (rho : mat T), gate_wf n g -> wf_mat n rho ->
+  apply_gate_dm K cj n g rho = sandwich K cj n (gate_op K n g) rho.
+Proof. exact @apply_gate_dm_eq. Qed.
+Print Assumptions apply_gate_dm_ok.
+
+(* the density-matrix loop returns U rho U^dagger for the same U as the state-vector loop (C01.execute_ok) *)
+Theorem dm_run_ok : forall (T : Type) (K : ops T) (cj : T -> T), semiring K -> conj_ok K cj ->
+  forall n (gs : list gate) (rho : mat T), Forall (gate_wf n) gs -> wf_mat n rho ->
+  execute_dm K cj n gs rho = sandwich K cj n (circ_op K n gs) rho.
+Proof. exact @execute_dm_eq. Qed.
+Print Assumptions dm_run_ok.
